@@ -37,7 +37,7 @@ ASSUMPTIONS = ["index expressions for which numpy moves the result of integer an
                "PotentialArray.concatenate (from_array_and_metadata raises NotImplementedError), in-place operators and reflected + and - are not defined by abTEM and not in the workload",
                "the metadata entry of an axis reduced with keepdims=True is only required to exist and to fit a length-1 dimension"]
 QUICK = dict(n=2500, time=40)
-THOROUGH = dict(n=200000, time=300, shards=16)
+THOROUGH = dict(n=720290, time=480, shards=16)
 
 ORDINAL = ["OrdinalAxis", "NonLinearAxis", "AxisAlignedTiltAxis", "WaveVectorAxis", "TiltAxis", "ThicknessAxis",
            "ParameterAxis", "PositionsAxis"]
